@@ -83,13 +83,15 @@ CHECKS = {
         note="Trusted: TLC, the sre parse tree, wall-clock with generous growth thresholds. Polynomial degree is measured, not modelled (IDA not in the spec).",
         design="4 C19"),
     "C18": dict(
-        technique="TLA+ protocol spec DumpProtocol.tla (validate / open / write with injected failing validation point): TLC model check incl. liveness, fault enumeration replayed on the real dump(path), recorded event orders validated by TLC (Trace_Dump.tla)",
+        technique="TLA+ protocol spec DumpProtocol.tla (validate / open / write with injected failing validation point): TLC model check incl. liveness, fault enumeration replayed on the real dump(path), recorded event orders validated by TLC (Trace_Dump.tla); inductive invariant for unbounded numbers of validation points discharged by Apalache (Apa_Dump.tla)",
         text="TLC checks FailedDumpLeavesDisk, SuccessWrites, NoValidationAfterOpen and Terminates for every (top, nested, failAt, disk state) "
              "of the reference protocol and refutes the as-shipped open-before-serialize order; validation points are measured on the working "
              "tree (every _validate* call occurrence of a valid dump of 17 sample shapes of the 7 formats), TLC enumerates failAt x {absent, "
              "previous copy}, and each failure is injected into the real dump(path) and the destination's bytes/existence compared; real "
              "invalid field values are dumped over existing files; the event order (validate*/open/write) of every recorded dump, incl. "
-             "the repository's tests, is validated against the spec.",
+             "the repository's tests, is validated against the spec. Apalache discharges Init => IndInv, IndInv /\\ Next => IndInv' and IndInv => "
+             "FailedDumpLeavesDisk /\\ SuccessWrites for unbounded top / nested and refutes the inductive step of the as-shipped order. The failing "
+             "dump is repeated as dump(f=path), to a pathlib.Path, a relative path and destinations named *.tmp / *.bak / ... with and without a previous copy.",
         note="Trusted: TLC, the validator/open wrappers installed from /verif (no repo hooks). Failures of the JSON/INI writer itself (after serialisation) are outside the statement.",
         design="4 C18"),
     "C06": dict(
@@ -120,12 +122,17 @@ CHECKS = {
         note="Trusted: TLC, hashlib as the reference digest, open()/hashlib.new() observation wrappers.",
         design="4 C16"),
     "C20": dict(
-        technique="TLA+ configuration spec ComposeLayout.tla (directory layouts, probing precedence, accessor results): TLC enumerates every configuration; each is materialised on disk and opened by the real Compose",
+        technique="TLA+ configuration spec ComposeLayout.tla (directory layouts, probing precedence, accessor results): TLC enumerates every configuration; each is materialised on disk and opened by the real Compose; ComposeAccess.tla (accessors as a state machine: access / edit / file replaced, corrupted, removed / metadata appearing elsewhere): TLC model check of LoadedOnce, OnlyAccessFills, ServesDocumentStep, FirstAccessIsDirectLoad, Frame, three deviations refuted, every generated history replayed on one real Compose object",
         text="TLC enumerates ~4k (quick) / ~9k configurations: states of the path, compose/, two legacy sub-directories x manifest file names "
              "(current, legacy, both, none) x content (valid, valid-empty, not JSON, empty, other format) x undecodable composeinfo x trailing "
              "slash, checks Prefers/Exists on the model and emits the allowed resolution set and each accessor's expected result; the real "
              "Compose must resolve into the allowed set, every accessor equals a direct load of an acceptable file, is the same object on "
-             "re-access after the files were replaced, and missing/undecodable files raise RuntimeError naming the location/file.",
+             "re-access after the files were replaced, and missing/undecodable files raise RuntimeError naming the location/file. "
+             "ComposeAccess.tla: TLC explores every reachable state of the accessor machine (18 starting directories, up to 1 (quick) / 2 replaced "
+             "files or edits) and every history of length 3 (quick) / 4-5 per pair of kinds plus -simulate histories of length 12; each history "
+             "runs on one real Compose over a real directory in the direct / compose/ / legacy layout, files really replaced, corrupted (six "
+             "undecodable contents) or removed between accesses; document served, == direct load, identity, the caller's latest edit and the "
+             "RuntimeError text are compared after every access.",
         note="Trusted: TLC, temp-dir materialisation from real dumps. Left open where the statement is silent (several legacy dirs, both names). HTTP not exercised.",
         design="4 C20"),
     "C01": dict(
